@@ -43,6 +43,8 @@ def normalising_guards(f):
 
 def implies_positive(test, var, bound, default):
     """does `if test: var = default` establish var > bound afterwards? test must contain `var <= bound` (or <)"""
+    from ..pm import canon_node
+    test = canon_node(test)
     parts = test.values if isinstance(test, ast.BoolOp) and isinstance(test.op, ast.Or) else [test]
     for c in parts:
         if isinstance(c, ast.Compare) and len(c.ops) == 1 and norm_src(c.left) == var and is_const(c.comparators[0]):
@@ -141,7 +143,8 @@ def run(pm, ctx):
         if g is not None and implies_positive(g["test"], var, bound, g["default"]) and cfg.dominates(g["if"], W):
             # no later re-binding to something unchecked before the loop
             rd = cfg.reaching()
-            bad = [d for d in rd[W].get(var, ()) if d is not ENTRY and d is not mults[0] and not _within(d, g["if"]) and not _is_source_def(d, var)]
+            m0 = getattr(mults[0], "_orig", mults[0]) if mults else None
+            bad = [d for d in rd[W].get(var, ()) if d is not ENTRY and d is not m0 and not _within(d, g["if"]) and not _is_source_def(d, var)]
             if not bad:
                 ctx.ok("C07-a", site, f"normalised by `{norm_src(g['test'])}` -> {g['default']}")
                 continue
@@ -154,7 +157,7 @@ def run(pm, ctx):
     okb = False
     if cnt:
         iv = cnt[0].split(" <")[0]
-        steps = [s for s in Wi.body if isinstance(s, ast.AugAssign) and norm_src(s) == f"{iv} += 1"]
+        steps = [s for s in Wi.body if isinstance(s, (ast.AugAssign, ast.Assign)) and norm_src(s) == f"{iv} += 1"]     # norm_src spells i = i + 1 as i += 1
         inits = [d for d in cfg.reaching()[Wi].get(iv, ()) if d not in set(ast.walk(Wi))]
         okb = len(steps) == 1 and Wi.body[-1] is steps[0] and len(inits) == 1 and norm_src(inits[0]) == f"{iv} = 0" \
             and not any(isinstance(n, ast.Continue) for n in ast.walk(Wi) if _loop_of(n) is Wi)
@@ -223,7 +226,7 @@ def run(pm, ctx):
             brk = [s for s in W.body if isinstance(s, ast.If) and any(isinstance(x, ast.Break) for x in ast.walk(s))]
             if any(W.body.index(b) > idx[0] for b in brk):
                 probs.append("an abort (break) can happen after some histories were already appended")
-            if mults and W.body.index(stmts["alphas"]) > W.body.index(mults[0]):
+            if mults and getattr(mults[0], "_orig", mults[0]) in W.body and W.body.index(stmts["alphas"]) > W.body.index(getattr(mults[0], "_orig", mults[0])):
                 probs.append("alphas records the value after the multiplication, not the alpha the step was trained with")
             if Wi in W.body and idx[0] < W.body.index(Wi):
                 probs.append("a history is appended before the step is trained")
@@ -435,7 +438,9 @@ def loops_entered(pm, te, cfg, f, guards):
                 out.add(n)
         elif isinstance(n, ast.While):
             inside = set(ast.walk(n))
-            conj = n.test.values if isinstance(n.test, ast.BoolOp) and isinstance(n.test.op, ast.And) else [n.test]
+            from ..pm import canon_node
+            ctest = canon_node(n.test)
+            conj = ctest.values if isinstance(ctest, ast.BoolOp) and isinstance(ctest.op, ast.And) else [ctest]
             allok = True
             for c in conj:
                 if not (isinstance(c, ast.Compare) and len(c.ops) == 1 and isinstance(c.ops[0], (ast.Lt, ast.LtE))):
@@ -490,7 +495,8 @@ def _lower_bound(pm, tabs, cfg, loop, expr, guards):
             for bound in (0, 1):
                 pass
             # `if v <= c: v = k` with k > c  gives v > c
-            t = g["test"]
+            from ..pm import canon_node
+            t = canon_node(g["test"])
             parts = t.values if isinstance(t, ast.BoolOp) else [t]
             for c in parts:
                 if isinstance(c, ast.Compare) and norm_src(c.left) == expr.id and is_const(c.comparators[0]) and isinstance(c.ops[0], (ast.LtE, ast.Lt)):
